@@ -20,9 +20,12 @@ ATTRS = ["a", "b", "real", "x", "é", "if_", "f", "append", "in_"]
 COMMENTS = ["", " c", " (", " )", " ((", " ))", " ]", " [", " if x:", " else:", " 'q", ' "q', " # nested", " def f(",
             " x = 1", " é", " ,", " :", " = ", " lambda", " a.b", " )(", " elif", " '''", ' """', " {", " }",
             " with a as b:", " import a", " in", " not", " 12", " a b c x y", " f(a, b)", "\t#", "!", " 1_000",
-            " try:", " except", " finally:", " return", " pass", " class A(", " @d", " -> ", " * ", " ** "]
+            " try:", " except", " finally:", " return", " pass", " class A(", " @d", " -> ", " * ", " ** ",
+            # characters str.splitlines() treats as line boundaries but the interpreter does not
+            " \x0c x", " a\x1cb", " \x1d\x1e", " nel\x85x", " ls\u2028ps\u2029 elif", "\x0b"]
 STR_BODY = ["", "a", "#", " # x", "(", ")", "((", "if", "else:", "def f(", "\\n", "\\\\", "{", "}", ",", ":", "x = 1",
-            "[", "]", " ", "in", "'''", '"""', "\\'", '\\"', "not", "#(", ")#", "lambda", "1", "a.b", "%s", "@"]
+            "[", "]", " ", "in", "'''", '"""', "\\'", '\\"', "not", "#(", ")#", "lambda", "1", "a.b", "%s", "@",
+            "\x0c", "\x1c", "\x1d\x1e", "\x85", "\u2028", "\u2029x"]
 NUMS = ["0", "1", "12", "007"[:1], "1.5", "1.", ".5", "1e5", "1E5", "1.5e-3", "2e+2", "0x1f", "0xFF", "0o17", "1j", "2.5J",
         "1e3j", "10", "100", "3.14", "0.0", "0xabc", "0xe", "9"]
 NUMS_STRESS = ["0b101", "1_000", "0XFF", "0O17", "0B1", "1_0.0_1", "0x_ff", "1_0e1_0", "0b1_0", "1_000j"]
@@ -523,7 +526,9 @@ class Gen:
         out = ""
         while r.random() < 0.2:
             k = r.random()
-            if k < 0.4:
+            if k < 0.1:
+                out += r.choice(["\x0c", "\x0c" + ind, "\x0c  "]) + "\n"      # a page break on a blank line
+            elif k < 0.4:
                 out += r.choice(["", "  ", ind]) + "\n"
             else:
                 out += r.choice(["", ind, ind + "  ", " " * r.randint(0, 6)]) + self.comment() + "\n"
